@@ -92,8 +92,9 @@ CHECKS.update({
     "C10": _mc("bounded exhaustive feature product + corpus; validator, content equality, idempotence, independent libsbml extraction",
                "Feature-product models (ids, bounds, objective, rules, groups, notes, annotations, names) with <=1 feature off "
                "default x {path, handle, string}, all feature pairs, f_replace={}, Configuration bounds; every shipped SBML file; "
-               "third-party document shapes (single and all pairs) derived with libsbml and compared with an independent "
-               "extraction under log capture.", "libsbml reader/validator trusted; numbers compared to 15 significant digits.",
+               "third-party document shapes (incl. flux bounds left out in non-strict documents; single and all pairs) derived "
+               "with libsbml, compared with an independent extraction under log capture and re-read with the document's lists "
+               "reversed (same content); save, edit in place, save again.", "libsbml reader/validator trusted; numbers compared to 15 significant digits.",
                "DESIGN.md §4 C10"),
     "C11": _mc("bounded exhaustive feature product x formats x options; content equality and idempotence",
                "Feature-product models x {json str/path/handle+pretty, yaml str/path, dict, pickle} x sort on/off x Configuration "
@@ -105,24 +106,27 @@ CHECKS.update({
                "vs. brute-force loop-free optimum.", _FAM + " Finite bounds.", "DESIGN.md §4 C17"),
     "C18": _mc("explicit-state closure over medium assignments + bounded exhaustive family vs. exact LP / subset enumeration",
                "All reachable bound states of a bench with export-, import- and reversibly-written exchanges (plus demand and "
-               "sink) under all 64 medium assignments; minimal_medium on family members (both spellings) x targets x exports x "
+               "sink) under all 64 medium assignments, and assignments on the bench reached by every other public route (origins); "
+               "minimal_medium on family members (both spellings) x targets x exports x "
                "open_exchanges x minimize_components: None iff infeasible, sufficiency, minimal total import / cardinality.",
                _FAM + " Forced import excluded (property undefined).", "DESIGN.md §4 C18"),
     "C19": _mc("bounded exhaustive input family vs. exact FVA of the flux cone",
-               "Family members with bounds including zero x reaction_list (None, singles, pairs; ids) x open_exchanges x "
+               "Family members with bounds including zero (two compartment profiles: all boundary reactions exchanges / one demand "
+               "or sink) x reaction_list (None, singles, pairs; ids) x open_exchanges x "
                "objectives (must not matter) for find_blocked_reactions; fastcc returns exactly the non-blocked reactions "
                "unchanged and leaves its input unchanged.", _FAM, "DESIGN.md §4 C19"),
     "C20": _mc("bounded exhaustive input family x solutions x fva forms; recomputation from the Solution passed in",
                "Family members with >=2 boundary reactions (flipped spellings, doubled coefficients) x solutions (default pFBA, "
-               "FBA, optimal vertices wrapped in Solution) x fva (None, 0.9, 1.0, frame) x model/metabolite/reaction summaries: "
+               "FBA, optimal vertices wrapped in Solution, edited) x fva (None, 0.9, 1.0, frame, wide frame shared by all summaries) x "
+               "model/metabolite/reaction summaries, plus shapes with parallel boundary reactions of one metabolite: "
                "membership, side, flux, ranges, totals, percentages, rendering.", _FAM, "DESIGN.md §4 C20"),
 })
 
 
 CHECKS.update({
     "C13": ("model_checking", "exhaustive fault enumeration: choice-point search over injected solver failures (vsolver seam) x analyses x model classes",
-            "43 analyses x 7 model classes (feasible, cycle, infeasible, unbounded, zero optimum, empty objective, two "
-            "substrates) x {outside, inside a user context after an edit}: fault-free run, repeat run, and every single injected "
+            "56 analysis/argument combinations x 13 model classes (feasible, cycle, infeasible, unbounded, zero optimum, empty "
+            "objective, two substrates, gap, minimising, genes flagged, tolerance, glpk_exact, objective pinned by the caller) x {outside, inside a user context after an edit}: fault-free run, repeat run, and every single injected "
             "failure of the k-th solver call (raise SolverError / report infeasible / report undefined), thorough: all pairs for "
             "N<=30; ordered snapshot (content, raw LP, solver configuration) before == after; the user's context exit restores "
             "the entry state; repeated calls agree on uniquely defined outputs.",
@@ -130,7 +134,8 @@ CHECKS.update({
             "run on the model with infinite bounds (GLPK aborts on infinite coefficients); parallel paths are C14.",
             "DESIGN.md §4 C13"),
     "C14": _mc("stateless choice-point DFS (deviation-bounded) over schedules of a controlled forked process pool",
-               "For FVA (plain/loopless/pfba), blocked, essential, single/double gene/reaction deletion (fba, linear moma) and "
+               "For FVA (plain/loopless/pfba, requests mixing bounded and unbounded reactions), blocked, essential, single/double "
+               "gene/reaction deletion (fba, linear moma, linear room; also on a model where the methods disagree) and "
                "OptGP sampling: processes 2..3 (thorough 4), every permutation of the item list, every chunk->worker assignment "
                "(up to worker symmetry) and delivery order within <=2 (3) deviations from the default schedule, executed on "
                "real fork()ed workers in lock-step; results must equal the processes=1 result and single-item calls; the real "
